@@ -54,3 +54,52 @@ def install_os_model(E):
 
 def exc_name(v):
     return v.tname if isinstance(v, ExcVal) else str(v)
+
+
+def parse_fp(txt, ebits, sbits):
+    """A float from a solver model value: cvc5 '(fp #b0 #b00000 #b0111010000)' or z3 '1.5*(2**3)' / '-0.0' / '+oo' / 'NaN'."""
+    import math
+    import re
+
+    txt = txt.strip()
+    m = re.search(r"\(fp #b([01]) #b([01]+) #b([01]+)\)", txt)
+    if m:
+        sgn, e, f = int(m.group(1)), int(m.group(2), 2), int(m.group(3), 2)
+        bias = (1 << (ebits - 1)) - 1
+        fb = sbits - 1
+        if e == (1 << ebits) - 1:
+            v = math.inf if f == 0 else math.nan
+        elif e == 0:
+            v = f * 2.0 ** (1 - bias - fb)
+        else:
+            v = (1 + f / (1 << fb)) * 2.0 ** (e - bias)
+        return -v if sgn else v
+    if "NaN" in txt:
+        return math.nan
+    if "oo" in txt:
+        return -math.inf if txt.startswith("-") else math.inf
+    t = txt.replace("**", "^")
+    m = re.fullmatch(r"([+-]?[0-9.]+)(?:\*\(2\^(-?\d+)\))?", t)
+    if m:
+        return float(m.group(1)) * (2.0 ** int(m.group(2)) if m.group(2) else 1.0)
+    return None
+
+
+def model_values(model, names, ebits, sbits):
+    """Extract float values of constants / constant functions from a z3 dict model or a cvc5 model dump."""
+    import re
+
+    out = {}
+    if "__cvc5_model__" in model:
+        txt = model["__cvc5_model__"]
+        for n in names:
+            m = re.search(r"\(define-fun " + re.escape(n) + r" \([^)]*(?:\([^)]*\)[^)]*)*\) \(_ FloatingPoint \d+ \d+\) (\(fp [^)]*\)|[^\n]*)\)", txt)
+            if m:
+                out[n] = parse_fp(m.group(1), ebits, sbits)
+        return out
+    for n in names:
+        if n in model:
+            v = model[n]
+            mm = re.search(r"else -> ([^\],]+)", v)
+            out[n] = parse_fp(mm.group(1) if mm else v, ebits, sbits)
+    return out
